@@ -203,6 +203,9 @@ class C09(PropBase):
             # mutually recursive type aliases (lazily evaluated `type` statements), None declared first
             world["modules"][0]["decls"].append({"d": "raw", "n": "VwRA", "src": "type VwRA = None | int | VwRB\ntype VwRB = None | str | VwRA\ntype VwRC = list[VwRC] | int\n"})
             roots.append({"k": "raw", "src": rng.choice(["vw0.VwRA", "vw0.VwRB", "list[vw0.VwRA]", "vw0.VwRC", "dict[str, vw0.VwRB]"])})
+        # (two member orders of one member set in one process is the union-order alias that C08/C12 record;
+        # this check is about the shape of the graph, not about which equal union was built first)
+        gen.one_order_per_member_set(world, roots)
         steps = []
         n = rng.randint(1, 12 if tier == "quick" else 30)
         graphs = []
